@@ -16,10 +16,14 @@ from sim.core import RunResult
 ID = "C01"
 TIERS = {"quick": 25000, "thorough": 400000}
 RULE = (
-    "each run = one seeded session history (1-2 Solver objects, <=8 variables each, domain product <=4096 "
-    "(<=20480 with one wide variable), <=14 operations, constraint trees <=25 nodes over every DSL operator); "
-    "non-trivial = at least one find_answer whose reference model set is neither empty nor the whole domain; "
-    "distinct = distinct SHA-256 of the run's event log"
+    "each run = one seeded session history: 1-2 Solver objects, <=8 variables each (12% of sessions padded with 8-12, some "
+    "with 100-300, singleton-domain variables so that multi-digit ids occur; bounds around 2^31 / 2^32 / 2^63 occur), "
+    "domain product <=4096 (<=20480 with one wide variable; 16384 in the thorough size ramp), <=14 operations (<=24 "
+    "thorough), constraint trees <=25 nodes (<=60 thorough) over every DSL operator and spelling, 12% of constraints from "
+    "puzzle-shaped templates (cardinality over up to 24 cells, linear sums, wide alldifferent, guarded comparisons), 65% of "
+    "sessions witness-biased; constraints and answer keys are handed over positionally, as lists, nested lists, arrays, "
+    "generators and tuples; non-trivial = at least one find_answer whose reference model set is neither empty nor the whole "
+    "domain; distinct = distinct SHA-256 of the run's event log"
 )
 STATE_MEASURE = "distinct (declarations, model set) pairs at find_answer time"
 COMPONENTS = {
